@@ -57,6 +57,10 @@ fn build_undirected_neighbors(store: &LpgStore) -> FxHashMap<NodeId, FxHashSet<N
     for &node in &nodes {
         // Outgoing edges: node -> neighbor
         for (neighbor, _) in store.edges_from(node, Direction::Outgoing) {
+            // A self-loop is not an adjacency between distinct nodes
+            if neighbor == node {
+                continue;
+            }
             if let Some(set) = neighbors.get_mut(&node) {
                 set.insert(neighbor);
             }
@@ -68,6 +72,9 @@ fn build_undirected_neighbors(store: &LpgStore) -> FxHashMap<NodeId, FxHashSet<N
 
         // Incoming edges: neighbor -> node (ensures we capture all connections)
         for (neighbor, _) in store.edges_from(node, Direction::Incoming) {
+            if neighbor == node {
+                continue;
+            }
             if let Some(set) = neighbors.get_mut(&node) {
                 set.insert(neighbor);
             }
